@@ -177,11 +177,14 @@ SKELETONS = {
     "K4-wire-only": ([_top([("ua", "A"), ("l", "L1")]), _nonleaf("A", [])], ["L1"], "quick"),
     "K10-wire-only-shared": ([_top([("u0", "A"), ("u1", "A")]), _nonleaf("A", [])], [], "quick"),
     "K8-bus": ([_top([("ua", "A")], [port("t", 2, "inout")]), _nonleaf("A", [("c", "L2")], [port("b", 2, "inout")])], ["L2"], "quick"),
+    "K12-portless": ([_top([("ua", "A")]), _nonleaf("A", [("c", "L1")], [])], ["L1"], "quick"),
     "K5-chain3": ([_top([("ua", "A")]), _nonleaf("A", [("ub", "B")]), _nonleaf("B", [("c", "L1")])], ["L1"], "thorough"),
     "K6-shared-two-depths": ([_top([("ua", "A"), ("ub", "B")]), _nonleaf("A", [("ub", "B")]), _nonleaf("B", [("c", "L1")])], ["L1"], "thorough"),
     "K7-shared-both": ([_top([("u0", "A"), ("u1", "A")]), _nonleaf("A", [("ub", "B")]), _nonleaf("B", [("c", "L1")])], ["L1"], "thorough"),
     "K9-two-children": ([_top([("ua", "A")]), _nonleaf("A", [("c0", "L1"), ("c1", "L1")])], ["L1"], "thorough"),
+    "K11-chain4": ([_top([("ua", "A")]), _nonleaf("A", [("ub", "B")]), _nonleaf("B", [("uc", "C")]), _nonleaf("C", [("c", "L1")])], ["L1"], "thorough"),
 }
+QUICK_SLICE = {"K11-chain4": 250}   # designs of a deep skeleton in the quick tier (default 1500)
 LEAVES = {"L1": LEAF1, "L2": LEAF2}
 _WIRING_CACHE = {}
 
@@ -209,9 +212,11 @@ def family_hier(tier, variants=VARIANTS):
             total *= len(w)
         # the deeper skeletons enter the quick tier with a fixed arithmetic slice of their wirings
         # (every wiring in the thorough tier)
-        stride = 1 if (t != "thorough" or tier == "thorough") else max(1, total // 1500)
-        for idx in itertools.product(*[range(len(w)) for w in ws]):
-            if stride > 1 and (sum(i * (k + 1) for k, i in enumerate(idx)) % stride):
+        stride = 1 if (t != "thorough" or tier == "thorough") else max(1, total // QUICK_SLICE.get(sk, 1500))
+        for lin, idx in enumerate(itertools.product(*[range(len(w)) for w in ws])):
+            if stride > 1 and stride < 16 and (sum(i * (k + 1) for k, i in enumerate(idx)) % stride):
+                continue
+            if stride >= 16 and lin % stride:   # (the weighted sum never reaches a large stride)
                 continue
             for v in variants:
                 if tier != "thorough" and v != "plain" and sk not in ("K1-chain2", "K2-shared", "K8-bus"):
